@@ -5,7 +5,7 @@ PLAN = dict(
           "major types 0,2,3,4,5, shortest heads, map keys strictly ascending bytewise). A panic is a rejection (the repository's unit tests "
           "require panics on truncated input); not returning within the watchdog time is a violation. short-exhaustive: every byte string of "
           "length <= L (4 quick, 5 thorough), and of length L+1 when starting with a2 (two-pair map), over a 37-byte grammar alphabet; boundary / bigarg-*: one head (major, argument at a width "
-          "boundary, every width) with declared-1/declared/declared+1 content in 5 contexts; generated: a valid nested sequence from the "
+          "boundary, every width) with declared-1/declared/declared+1 content in 5 contexts; initial-byte: each of the 256 initial bytes followed by k content units (bytes, one-byte items, ascending pairs; k around every value its additional information could be mistaken for, up to 300) in 5 contexts; generated: a valid nested sequence from the "
           "reference encoder with none or exactly one corruption (head lengthened, adjacent map entries swapped, key duplicated, length/count "
           "replaced incl. 2^62..2^64-1, truncated, partial item appended); encoder-output: bytes emitted by the repository's Encoder for "
           "generated trees of the subset must be accepted. Non-trivial: the first head of the input parses. VERIF_C13_SKIP_F3=1 leaves out "
@@ -14,7 +14,7 @@ PLAN = dict(
                            "UTF-8 validity of text strings is outside RFC 8949 well-formedness and is not judged"],
     runs=[
         dict(name="short", run="^TestExhaustiveShort$", shards=(1, 16), timeout=(300, 900)),
-        dict(name="enum", run="^(TestExhaustiveBoundary|TestExhaustiveBigArgs|TestCorpus)$"),
+        dict(name="enum", run="^(TestExhaustiveBoundary|TestExhaustiveInitialByte|TestExhaustiveBigArgs|TestCorpus)$"),
         dict(name="gen", run="^TestPropGenerated$", checks=(100000, 250000), shards=(1, 8)),
         dict(name="enc", run="^TestPropEncoderOutput$", checks=(30000, 100000), shards=(1, 4)),
     ],
